@@ -200,6 +200,9 @@ func explodeNode(node *CandidateNode, context Context) error {
 			node.AddChildren(node.Alias.Content)
 			node.Value = node.Alias.Value
 			node.Alias = nil
+			// the copied content may hold anchors and aliases of its own
+			log.Debug("now I'm %v", NodeToString(node))
+			return explodeNode(node, context)
 		}
 		log.Debug("now I'm %v", NodeToString(node))
 		return nil
